@@ -52,6 +52,8 @@ def plan(tier, seed):
     for lo in range(1, hi + 1, 512):
         tasks.append({"kind": "gs_linear", "lo": lo, "hi": min(hi + 1, lo + 512)})
     tasks.insert(0, {"kind": "large"})
+    if tier == "thorough":
+        tasks.insert(1, {"kind": "large", "huge": True})
     cmax = 24 if tier == "quick" else 64
     for c in range(1, cmax + 1, 4):
         tasks.append({"kind": "gs_conv", "clo": c, "chi": min(cmax + 1, c + 4), "kmax": 5 if tier == "quick" else 7})
@@ -451,6 +453,8 @@ def _large_task(task, out):
 
     cfgs = [("qint4", (1000, 2048), 0, 128), ("qint2", (1000, 2048), 0, 128), ("qint4", (2000, 1030), -1, 100), ("qint4", (1031, 1040), 0, None),
             ("qint8", (1031, 1040), 0, None), ("qfloat8_e4m3fn", (1031, 1040), 0, None), ("qfloat8_e5m2", (1040, 1031), -1, None), ("qint8", (1040, 1031), -1, None)]
+    if task.get("huge"):
+        cfgs = [("qint4", (4100, 4224), 0, 128), ("qint2", (8193, 1024), 0, None), ("qint8", (8193, 1024), 0, None), ("qfloat8_e4m3fn", (4100, 4224), 0, None)]
     for qname, shape, axis, gs in cfgs:
         c = ["qw", qname, list(shape), axis, gs]
         if only and only != c:
@@ -477,7 +481,7 @@ def _large_task(task, out):
             for sub, msg in _judge_qbytes(x, q, qname, axis, dtname):
                 out["violations"].append(violation(PID, case, dict(fields, sub=sub), f"{sub}: accepted large configuration {c}: {msg}"))
     for qname in ("qint4", "qint2", "qint8", "qfloat8_e4m3fn"):
-        for fin, fout in ((2048, 1000), (1000, 2050)):
+        for fin, fout in ((2048, 1000), (1000, 2050)) if not task.get("huge") else ((4224, 4100),):
             c = ["module", qname, fin, fout]
             if only and only != c:
                 continue
